@@ -411,6 +411,10 @@ def thresholds(F, fns):
                 ty = st.get("dty", "?")
                 if re.match(r"^[ui](8|16|32|64|size)$", ty):
                     cnt[(ty, "switch", tuple(sorted(v for v, _ in st["targets"])))] += 1
+            elif len(st["targets"]) == 1 and not (dd and dd[2] == "assign" and dd[3]["k"] == "discr") and re.match(r"^[ui](8|16|32|64|size)$", st.get("dty", "?")):
+                # `match x { K => .., _ => .. }` decides what `x == K` decides
+                ty, k = st["dty"], st["targets"][0][0]
+                cnt[(ty,) + (("cut", 1) if k == 0 and ty.startswith("u") else ("eq", k))] += 1
     return [[list(k), v] for k, v in sorted(cnt.items(), key=lambda kv: repr(kv[0]))]
 
 
@@ -420,9 +424,21 @@ _NUM_METHODS = re.compile(r"(?:^|::)(wrapping_mul|wrapping_add|wrapping_sub|wrap
 _ASSERT_MACROS = ("assert", "assert_eq", "assert_ne", "debug_assert", "debug_assert_eq", "debug_assert_ne")
 
 
-def _self_update(b, s, xp):
-    """`x = x + 1` / `x -= 1` (the counter idiom): the result of the operation is stored back into its own operand."""
+def _in_loop(b, bb):
+    c = getattr(b, "_in_loop_cache", None)
+    if c is None:
+        c = b._in_loop_cache = {}
+    if bb not in c:
+        c[bb] = any(bb in b.reachable_from(s2) for s2 in b.succ(bb))
+    return c[bb]
+
+
+def _self_update(b, s, xp, bb=None):
+    """`x = x + 1` / `x -= 1` inside a loop (the counter idiom): the result of the operation is stored back into its own operand.
+    Outside a loop `n -= 1` adjusts a value once - format arithmetic like `n - 1` written anywhere else."""
     if xp is None or xp["p"] or s["p"]["p"]:
+        return False
+    if bb is not None and not _in_loop(b, bb):
         return False
     t, x = s["p"]["l"], xp["l"]
     if t == x:
@@ -475,7 +491,7 @@ def arith(F, fns):
                         op, k = "Shr", k.bit_length() - 1
                     elif op == "Rem" and pow2 and ty.startswith("u"):
                         op, k = "BitAnd", k - 1
-                    if op in ("Add", "Sub") and (k == 0 or (k == 1 and _self_update(b, s, xp))):
+                    if op in ("Add", "Sub") and (k == 0 or (k == 1 and _self_update(b, s, xp, bb))):
                         continue
                     if op in ("Shl", "Shr", "BitOr", "BitXor") and k == 0:
                         continue
@@ -573,6 +589,17 @@ def skeleton(F, fns):
             if ty in ("usize", "?") and r["op"] not in ("Eq", "Ne"):
                 continue        # position / loop-bound comparisons: an index loop and its iterator form differ in these only
             cnt[("cmp", "eq" if r["op"] in ("Eq", "Ne") else "ord", ty)] += 1
+        # `match x { K => .., _ => .. }` on an integer is the equality test `x == K`
+        for sb in sorted(b.normal_blocks()):
+            st = b.term(sb)
+            if st["k"] == "switch" and len(st["targets"]) == 1 and re.match(r"^[ui](8|16|32|64|128)$", st.get("dty", "?")):
+                dp = op_place(st["d"])
+                dd = b.single_def(dp["l"]) if dp is not None and not dp["p"] else None
+                if dd and dd[2] == "assign" and dd[3]["k"] in ("discr", "binop"):
+                    continue
+                if any(_panics(b, x) for x in [st["targets"][0][1], st["otherwise"]]):
+                    continue
+                cnt[("cmp", "eq", st["dty"])] += 1
         # decisions taken directly on a boolean field (`if self.params.zlib_compatible { .. }`): which flag
         for sb in sorted(b.normal_blocks()):
             st = b.term(sb)
@@ -772,6 +799,10 @@ def run(ctx, rep):
                             out |= {str(y) for y in x[0][1:]}
                         for x in S.get("literals", []) or []:
                             out.add(str(x[0]))
+                        # constants inside the closed forms of the leaf functions (compared on their own as `fn:` items)
+                        for kk, vv in S.items():
+                            if kk.startswith("fn:"):
+                                out |= set(re.findall(r"(?<![\w.])\d+(?![\w.])", json.dumps(vv)))
                         return out
                     rl, cl = _lits(ref.get(part, {})), _lits(cur.get(part, {}))
                     gone = {x: rv[x] for x in rv if x not in cv and x not in cl}
